@@ -6,6 +6,7 @@ Program form: list of tuples, registers are ("R"|"C"|"Q"|"M", index):
   ("add"|"sub", rout, ra, rb)            ("addm"|"subm", rout, ra, rb, rmod)
   ("array", rsize, addr)                 ("lea", reg, addr)
   ("store"|"load", reg, addr, ridx)      ("undef", addr, ridx)
+  ("wait_single", addr, ridx)            (returns the same pc while the entry is undefined: blocked)
   ("beq"|"bne"|"blt"|"bge", ra, rb, target)   ("bez"|"bnz", ra, target)   ("jmp", target)
   ("ret_reg", reg)  ("ret_arr", addr)
   ("qalloc"|"qfree"|"init", reg)         (gate, reg) for x y z h k s t
@@ -129,6 +130,11 @@ def step(st: AppState, prog: List[tuple], pc: int) -> int:
         arr, i = _entry(st, ins[1], ins[2])
         arr[i] = None
         return pc + 1
+    if op == "wait_single":
+        if ins[1] not in st.arrays and st.regs.get(ins[2]) is not None and st.regs[ins[2]] >= 0:
+            return pc        # an array nobody declared yet has no defined entry: the wait blocks (it is not a fault)
+        arr, i = _entry(st, ins[1], ins[2])
+        return pc if arr[i] is None else pc + 1
     if op in ("beq", "bne", "blt", "bge"):
         a, b = _rd(st, ins[1]), _rd(st, ins[2])
         taken = {"beq": a == b, "bne": a != b, "blt": a < b, "bge": a >= b}[op]
